@@ -5,7 +5,7 @@ P=$1; I=$2; WT=/tmp/seed-$P; OUT=/tmp/seed-$P-out
 export GOFLAGS=-mod=mod GOPROXY=off
 cd $WT && git checkout -q -- . && git apply $OUT/patch$I.diff || { echo "APPLY-FAILED"; exit 2; }
 T=$( (go build ./... && go test -count=1 ./... ) 2>&1 | grep -c "^FAIL\|cannot\|error" )
-rundemo() { if [ -d $OUT/demo$I ]; then (cd $OUT/demo$I && timeout 300 go run . >/tmp/seeddemo.out 2>&1; echo $?); elif [ -f $OUT/demo$I.sh ]; then (GROL_DIR=$WT timeout 300 bash $OUT/demo$I.sh $WT >/tmp/seeddemo.out 2>&1; echo $?); else echo nodemo; fi; }
+rundemo() { if [ -f $OUT/demo$I.sh ]; then (GROL_DIR=$WT timeout 600 bash $OUT/demo$I.sh $WT >/tmp/seeddemo.out 2>&1; echo $?); elif [ -d $OUT/demo$I ]; then (cd $OUT/demo$I && timeout 600 go run . >/tmp/seeddemo.out 2>&1; echo $?); else echo nodemo; fi; }
 D1=$(rundemo)
 git checkout -q -- .
 D0=$(rundemo)
